@@ -21,6 +21,8 @@ evaluator by the harness stream `typo`):
   Layer B (the part of the evaluator that calls them, for the fragment of Model/Closed.lean)
     `sched`                        ← `scheduleConjunct` / `scheduleStruct` /
                                       `scheduleVertexConjuncts` / `insertValueConjunct` (close())
+    `Sched.tasks`/`runTask`/`drain` ← references and calls are scheduler tasks (handleResolver,
+                                      handleExpr) that run after the inline part of a node's conjuncts
     `evalNode`                     ← arcs + pattern insertion (`insertArc`/`MatchAndInsert`),
                                       children first, then `checkTypos`
 
